@@ -109,8 +109,13 @@ func runShrinkTwice(ctx *core.Ctx, bin string, upd []int) {
 		return
 	}
 	time.Sleep(1500 * time.Millisecond) // the rewrite drops the replication connection; the follower reconnects
-	if !healthy(30 * time.Second) {
-		ctx.Inconclusive("shrink-twice: follower not healthy after the second rewrite")
+	if !healthy(60 * time.Second) {
+		if !leader.Alive() || !follower.Alive() {
+			ctx.Violation("replication-crash:shrink-twice", "a process died after the leader's second rewrite", map[string]any{"leader_stderr": leader.StderrTail(1500), "follower_stderr": follower.StderrTail(1500)})
+			return
+		}
+		// bounded progress, as in the generated scenarios: the leader has been quiescent for a minute
+		ctx.Violation("never-healthy:after-second-rewrite", fmt.Sprintf("leader with 20000 objects, AOFSHRINK, caught-up follower, same-length updates %v, AOFSHRINK again: the follower does not report healthy within 60 s of the quiescent leader's second rewrite; follower log: %s", upd, clipStr(follower.StderrTail(600), 600)), map[string]any{"updates": upd})
 		return
 	}
 	time.Sleep(500 * time.Millisecond)
